@@ -61,6 +61,7 @@ class Ctx:
         self.fams = {}  # base name -> list of expanded names
         self.quick = quick
         self.protected = set()  # axes whose length is structural (coordinate counts)
+        self.simple = False  # no flattening / extras / output permutation: tensors reach the backend as passed
 
     def new_axis(self, length=None, no1=False):
         name = self.names.pop()
@@ -98,6 +99,8 @@ class Ctx:
 
     def subset(self, seq, p=0.6, min_size=0):
         seq = list(seq)
+        if self.simple:
+            p = 0.9
         out = [s for s in seq if self.b(p)]
         while len(out) < min(min_size, len(seq)):
             c = self.pick([s for s in seq if s not in out])
@@ -106,7 +109,7 @@ class Ctx:
 
     def perm(self, seq):
         seq = list(seq)
-        if len(seq) <= 1:
+        if len(seq) <= 1 or self.simple:
             return seq
         return list(self.draw(st.permutations(seq)))
 
@@ -152,6 +155,9 @@ def wrap(ctx, units, depth=0, allow_flat=True, extras=True):
     out = []
     i = 0
     n = len(units)
+    if ctx.simple:
+        allow_flat = False
+        extras = False
     while i < n:
         r = ctx.draw(st.integers(0, 9)) if (allow_flat and depth < 2) else 9
         if r < 3:
@@ -481,6 +487,8 @@ def _out_units(ctx, in_units_union, allow_broadcast=True, allow_squeeze=True):
     """Output = permutation of the union of input units, minus some length-1 units (squeeze),
     plus output-only broadcast units."""
     units = []
+    if ctx.simple:
+        return list(in_units_union)
     for u in in_units_union:
         if allow_squeeze and _unit_len1(ctx, u) and ctx.b(0.4):
             continue
@@ -502,7 +510,7 @@ def _out_units(ctx, in_units_union, allow_broadcast=True, allow_squeeze=True):
 def _with_diagonal(ctx, units):
     """Maybe repeat an un-bracketed plain axis inside one input (diagonal)."""
     cands = [u for u in units if u[0] == "leaf" and not u[2] and u[1][0] == "ax"]
-    if cands and ctx.b(0.12):
+    if cands and ctx.b(0.12) and not ctx.simple:
         u = ctx.pick(cands)
         pos = ctx.draw(st.integers(0, len(units)))
         units = list(units)
@@ -523,6 +531,7 @@ def gen_elementwise(ctx, op):
         n_in = 3
     elif op in ELEMENTWISE_NARY:
         n_in = ctx.draw(st.sampled_from([1, 2, 2, 2, 3, 4]))
+        n_in = max(n_in, getattr(ctx, "min_inputs", 0))
     else:
         n_in = 2
     pool = _vector_units(ctx)
@@ -857,8 +866,10 @@ def _loop_size(env, ins, outs):
 
 
 @st.composite
-def call_case(draw, ops=None, backends=None, quick=True):
+def call_case(draw, ops=None, backends=None, quick=True, simple=False, min_inputs=0):
     ctx = Ctx(draw, quick)
+    ctx.simple = simple
+    ctx.min_inputs = min_inputs
     if ops is None:
         # stratify by family first so that structurally rich families are not drowned by the 18 scalar ops
         fam = draw(st.sampled_from(FAMILY_WEIGHTS))
